@@ -1,0 +1,31 @@
+//go:build verif
+
+package rpc
+
+import (
+	"net/http"
+	"sync"
+)
+
+// Verification hook (build tag verif): exposes the complete HTTP handler stack of the JSON-RPC
+// server (CORS wrapper + access-control closure + dispatch) exactly as Listen hands it to
+// http.Serve, so that a monitor can serve requests through it with arbitrary remote addresses.
+
+var (
+	verifMu           sync.Mutex
+	verifJSONHandlers = make(map[*JSONRPCServer]http.Handler)
+)
+
+func verifCaptureHandler(j *JSONRPCServer, h http.Handler) {
+	verifMu.Lock()
+	verifJSONHandlers[j] = h
+	verifMu.Unlock()
+}
+
+// VerifJSONRPCHandler returns the handler built by the last Listen of r's JSON-RPC server
+// (nil before Listen).
+func (r *RPC) VerifJSONRPCHandler() http.Handler {
+	verifMu.Lock()
+	defer verifMu.Unlock()
+	return verifJSONHandlers[r.japi]
+}
